@@ -8,10 +8,13 @@ package props
 //       DedupeRowWriter, MultiRowWriter — flat and nested) over a recording RowWriterFunc and a real
 //       RowBuffer, driven with caller rows laid out in caller-owned backing arrays (own array with spare
 //       capacity, rows carved out of one shared array with cap == len, and with cap reaching over the
-//       following rows). L1: after every WriteRows call every cell of every caller array (spare capacity
-//       included) and every row header is what it was. L2: returned (n, err) of every call, what every
-//       leaf received and the caller arrays after the history equal the Lean mirror's (`own.run`,
-//       PqModel.WriteOwn, theorem write_keeps_caller_memory).
+//       following rows) and handed over in caller-owned []Row slices (sub-slices of one array with the
+//       capacity reaching over the following batches or clipped, one array per batch; spare capacity holding
+//       stale headers; the same slice or a sub-slice of it sent again). L1: after every WriteRows call every
+//       cell of every caller []Value array and of every caller []Row array (spare capacity included) is what
+//       it was. L2: returned (n, err) of every call, what every leaf received, the caller []Value arrays and
+//       the caller []Row arrays after the history equal the Lean mirror's (`own.run`, PqModel.WriteOwn,
+//       theorem write_keeps_caller_memory).
 //
 //   Part B (L1)  sweep of the remaining entry points that take caller-owned parquet rows / values, on the
 //       catalogue types with real values (byte arrays included): chains of wrappers over Writer,
@@ -27,6 +30,7 @@ import (
 	"fmt"
 	"io"
 	"math/rand"
+	"sort"
 	"strings"
 	"sync"
 	"unsafe"
@@ -41,7 +45,7 @@ func init() {
 	RegisterSub("C16", "writeside", RunC16WriteSide)
 }
 
-const c16WriteRule = "Part A: random trees (depth <= 4) of FilterRowWriter / TransformRowWriter / DedupeRowWriter / MultiRowWriter over a recording RowWriterFunc (failing at a chosen call) and a real RowBuffer x caller rows in three memory layouts (own array with spare capacity, carved with cap == len, carved with cap over the following rows) x 0..130 rows in random batches: caller arrays and row headers compared after every call (L1) and returns / delivered rows / caller arrays compared with the Lean mirror own.run (L2); non-trivial = at least one row reached a leaf through at least one wrapper and the history has >= 2 calls or >= 43 rows. Part B: catalogue types x wrapper chains over Writer, GenericWriter[any], Buffer, RowBuffer, SortingWriter, BeginRowGroup writers, plus ColumnWriter.WriteRowValues, ColumnBuffer.WriteValues and SortingWriter[T].Write: caller rows (headers, hidden capacity, byte-array contents) compared after every call incl. Flush / Reset / Close / Commit; non-trivial = the rows hold at least one non-null value and a wrapper or column entry point was used"
+const c16WriteRule = "Part A: random trees (depth <= 4) of FilterRowWriter / TransformRowWriter / DedupeRowWriter / MultiRowWriter over a recording RowWriterFunc (failing at a chosen call) and a real RowBuffer x caller rows in three memory layouts (own array with spare capacity, carved with cap == len, carved with cap over the following rows) x three layouts of the []Row slices handed over (sub-slices of one array with cap over the following batches, clipped, one array per batch; stale headers in the spare capacity; a slice or sub-slice sent again) x 0..130 rows in random batches: caller []Value arrays and caller []Row arrays compared cell by cell over their capacity after every call (L1) and returns / delivered rows / caller []Value arrays / caller []Row arrays compared with the Lean mirror own.run (L2); non-trivial = at least one row reached a leaf through at least one wrapper and the history has >= 2 calls or >= 43 rows. Part B: catalogue types x wrapper chains over Writer, GenericWriter[any], Buffer, RowBuffer, SortingWriter, BeginRowGroup writers, plus ColumnWriter.WriteRowValues, ColumnBuffer.WriteValues and SortingWriter[T].Write: caller rows (headers, hidden capacity, byte-array contents) compared after every call incl. Flush / Reset / Close / Commit; non-trivial = the rows hold at least one non-null value and a wrapper or column entry point was used"
 
 func RunC16WriteSide(ctx *core.Ctx) {
 	ctx.SetRule(c16WriteRule)
@@ -236,16 +240,23 @@ func (n *c16wNode) build(leaves *[]*c16wLeaf, flat bool) parquet.RowWriter {
 }
 
 // caller memory of one case
+type c16wCall struct{ arr, off, n, cap int } // the []Row slice rowArrs[arr][off : off+n : off+cap]
+
 type c16wInput struct {
-	arrays [][]parquet.Value // arrays[i] is the caller's array i+1 of the model
-	rows   []parquet.Row
-	hdrs   []string // arr:off:len:cap per row
-	batch  []int
+	arrays  [][]parquet.Value // arrays[i] is the caller's []Value array i+1 of the model
+	rowArrs [][]parquet.Row   // rowArrs[i] is the caller's []Row array i+2 of the model, over its whole capacity
+	cells   [][]string        // arr:off:len:cap of every cell of rowArrs
+	calls   []c16wCall
+	nrows   int
+	layout  string
+	// set by run: the caller's memory right after the first call that changed it
+	chMem, chRowMem string
 }
 
 func c16wRandInput(r *rand.Rand) *c16wInput {
 	in := &c16wInput{}
 	n := []int{0, 1, 2, 3, 7, 41, 42, 43, 84, 85, 100, 130}[r.Intn(12)]
+	in.nrows = n
 	next := int64(1)
 	value := func(col int) parquet.Value {
 		// ids repeat in short runs so that predicates, duplicates and skips all occur
@@ -254,12 +265,17 @@ func c16wRandInput(r *rand.Rand) *c16wInput {
 		}
 		return parquet.Int64Value(next).Level(0, 0, col)
 	}
+	var rows []parquet.Row
+	var hdrs []string
 	layout := r.Intn(3)
 	switch layout {
 	case 0: // every row in its own array, with spare capacity holding sentinels
 		for i := 0; i < n; i++ {
 			l := r.Intn(4)
 			spare := r.Intn(3)
+			if l == 0 && spare == 0 {
+				spare = 1 // no zero-sized arrays: their headers could not be told apart
+			}
 			arr := make([]parquet.Value, l+spare)
 			for j := range arr {
 				if j < l {
@@ -269,8 +285,8 @@ func c16wRandInput(r *rand.Rand) *c16wInput {
 				}
 			}
 			in.arrays = append(in.arrays, arr)
-			in.rows = append(in.rows, parquet.Row(arr[0:l:len(arr)]))
-			in.hdrs = append(in.hdrs, fmt.Sprintf("%d:0:%d:%d", len(in.arrays), l, len(arr)))
+			rows = append(rows, parquet.Row(arr[0:l:len(arr)]))
+			hdrs = append(hdrs, fmt.Sprintf("%d:0:%d:%d", len(in.arrays), l, len(arr)))
 		}
 	default: // rows carved out of one array: cap == len (1) or cap up to the end of the array (2)
 		c := 1 + r.Intn(3)
@@ -281,28 +297,86 @@ func c16wRandInput(r *rand.Rand) *c16wInput {
 		in.arrays = append(in.arrays, arr)
 		for i := 0; i < n; i++ {
 			if layout == 1 {
-				in.rows = append(in.rows, parquet.Row(arr[i*c:i*c+c:i*c+c]))
-				in.hdrs = append(in.hdrs, fmt.Sprintf("1:%d:%d:%d", i*c, c, c))
+				rows = append(rows, parquet.Row(arr[i*c:i*c+c:i*c+c]))
+				hdrs = append(hdrs, fmt.Sprintf("1:%d:%d:%d", i*c, c, c))
 			} else {
-				in.rows = append(in.rows, parquet.Row(arr[i*c:i*c+c]))
-				in.hdrs = append(in.hdrs, fmt.Sprintf("1:%d:%d:%d", i*c, c, len(arr)-i*c))
+				rows = append(rows, parquet.Row(arr[i*c:i*c+c]))
+				hdrs = append(hdrs, fmt.Sprintf("1:%d:%d:%d", i*c, c, len(arr)-i*c))
 			}
 		}
 	}
+	var sizes []int
 	for pos := 0; pos < n; {
 		b := 1 + r.Intn(n-pos)
 		if r.Intn(3) == 0 {
 			b = n - pos
 		}
 		if r.Intn(8) == 0 {
-			in.batch = append(in.batch, 0) // an empty WriteRows call
+			sizes = append(sizes, 0) // an empty WriteRows call
 		}
-		in.batch = append(in.batch, b)
+		sizes = append(sizes, b)
 		pos += b
 	}
 	if n == 0 || r.Intn(6) == 0 {
-		in.batch = append(in.batch, 0)
+		sizes = append(sizes, 0)
 	}
+	// the []Row slices handed to WriteRows: one array holding all rows with the batches as consecutive
+	// sub-slices whose capacity reaches to the end (0) or is clipped to the length (1), or one array per
+	// batch (2); spare capacity holds stale headers (nil rows or copies of earlier rows)
+	spareCells := func(arr []parquet.Row, cells []string, k int) ([]parquet.Row, []string) {
+		for ; k > 0; k-- {
+			if len(rows) > 0 && r.Intn(2) == 0 {
+				i := r.Intn(len(rows))
+				arr, cells = append(arr, rows[i]), append(cells, hdrs[i])
+			} else {
+				arr, cells = append(arr, nil), append(cells, "0:0:0:0")
+			}
+		}
+		return arr, cells
+	}
+	rl := r.Intn(3)
+	in.layout = fmt.Sprintf("values-%d/rows-%d", layout, rl)
+	if rl < 2 {
+		arr := append([]parquet.Row(nil), rows...)
+		cells := append([]string(nil), hdrs...)
+		arr, cells = spareCells(arr, cells, r.Intn(4))
+		arr = arr[:len(arr):len(arr)]
+		in.rowArrs, in.cells = append(in.rowArrs, arr), append(in.cells, cells)
+		pos := 0
+		for _, b := range sizes {
+			c := c16wCall{0, pos, b, len(arr) - pos}
+			if rl == 1 {
+				c.cap = b
+			}
+			in.calls = append(in.calls, c)
+			pos += b
+		}
+	} else {
+		pos := 0
+		for _, b := range sizes {
+			arr := append([]parquet.Row(nil), rows[pos:pos+b]...)
+			cells := append([]string(nil), hdrs[pos:pos+b]...)
+			arr, cells = spareCells(arr, cells, r.Intn(3))
+			arr = arr[:len(arr):len(arr)]
+			in.rowArrs, in.cells = append(in.rowArrs, arr), append(in.cells, cells)
+			in.calls = append(in.calls, c16wCall{len(in.rowArrs) - 1, 0, b, len(arr)})
+			pos += b
+		}
+	}
+	// a caller that uses its rows again: the same slice sent once more, or a sub-slice of it
+	var calls []c16wCall
+	for _, c := range in.calls {
+		calls = append(calls, c)
+		switch r.Intn(12) {
+		case 0:
+			calls = append(calls, c)
+		case 1:
+			if c.n >= 2 {
+				calls = append(calls, c16wCall{c.arr, c.off + 1, c.n - 1, c.cap - 1})
+			}
+		}
+	}
+	in.calls = calls
 	return in
 }
 
@@ -317,6 +391,73 @@ func (in *c16wInput) memText() string {
 	return strings.Join(t, ";")
 }
 
+type c16wRowKey struct {
+	p        *parquet.Value
+	len, cap int
+}
+
+// rowMemText is the text of the caller's []Row arrays over their whole capacity: every cell is named by
+// the header text of the cell that was built with the same (pointer, len, cap); a header the caller never
+// had is `?`.
+func (in *c16wInput) rowMemText(names map[c16wRowKey]string) string {
+	if len(in.rowArrs) == 0 {
+		return "-"
+	}
+	t := make([]string, len(in.rowArrs))
+	for i, a := range in.rowArrs {
+		if len(a) == 0 {
+			t[i] = "e"
+			continue
+		}
+		cs := make([]string, len(a))
+		for j, row := range a {
+			name, ok := names[c16wRowKey{unsafe.SliceData(row), len(row), cap(row)}]
+			if !ok {
+				name = "?"
+			}
+			cs[j] = name
+		}
+		t[i] = strings.Join(cs, ";")
+	}
+	return strings.Join(t, "|")
+}
+
+func (in *c16wInput) rowNames() map[c16wRowKey]string {
+	names := map[c16wRowKey]string{}
+	for i, a := range in.rowArrs {
+		for j, row := range a {
+			names[c16wRowKey{unsafe.SliceData(row), len(row), cap(row)}] = in.cells[i][j]
+		}
+	}
+	return names
+}
+
+func (in *c16wInput) rowArraysText() string {
+	if len(in.cells) == 0 {
+		return "-"
+	}
+	t := make([]string, len(in.cells))
+	for i, c := range in.cells {
+		if len(c) == 0 {
+			t[i] = "e"
+		} else {
+			t[i] = strings.Join(c, ";")
+		}
+	}
+	return strings.Join(t, "|")
+}
+
+func (in *c16wInput) callsText() string {
+	if len(in.calls) == 0 {
+		return "-"
+	}
+	t := make([]string, len(in.calls))
+	for i, c := range in.calls {
+		t[i] = fmt.Sprintf("%d:%d:%d:%d", c.arr+2, c.off, c.n, c.cap)
+	}
+	return strings.Join(t, ",")
+}
+
 func c16wHeaders(rows []parquet.Row) string {
 	var sb strings.Builder
 	for _, row := range rows {
@@ -325,27 +466,28 @@ func c16wHeaders(rows []parquet.Row) string {
 	return sb.String()
 }
 
-// run drives one tree over the input; it returns rets, leaves text, the caller memory afterwards, and the
-// L1 verdict (first call after which the caller's memory differed, -1 if none).
-func (in *c16wInput) run(tree *c16wNode, flat bool) (rets, leaves, mem string, changedAfter int, panicked any) {
+// run drives one tree over the input; it returns rets, leaves text, the caller's []Value arrays and []Row
+// arrays afterwards, and the L1 verdict (first call after which the caller's memory differed, -1 if none).
+func (in *c16wInput) run(tree *c16wNode, flat bool) (rets, leaves, mem, rowMem string, changedAfter int, panicked any) {
 	var ls []*c16wLeaf
 	w := tree.build(&ls, flat)
-	before, hdrBefore := in.memText(), c16wHeaders(in.rows)
+	names := in.rowNames()
+	before, rowsBefore := in.memText(), in.rowMemText(names)
 	changedAfter = -1
 	var rs []string
 	func() {
 		defer func() { panicked = recover() }()
-		pos := 0
-		for ci, b := range in.batch {
-			n, err := w.WriteRows(in.rows[pos : pos+b])
+		for ci, c := range in.calls {
+			n, err := w.WriteRows(in.rowArrs[c.arr][c.off : c.off+c.n : c.off+c.cap])
 			e := 0
 			if err != nil {
 				e = 1
 			}
 			rs = append(rs, fmt.Sprintf("%d:%d", n, e))
-			pos += b
-			if changedAfter < 0 && (in.memText() != before || c16wHeaders(in.rows) != hdrBefore) {
-				changedAfter = ci
+			if changedAfter < 0 {
+				if mt, rt := in.memText(), in.rowMemText(names); mt != before || rt != rowsBefore {
+					changedAfter, in.chMem, in.chRowMem = ci, mt, rt
+				}
 			}
 		}
 	}()
@@ -358,20 +500,37 @@ func (in *c16wInput) run(tree *c16wNode, flat bool) (rets, leaves, mem string, c
 	for i, l := range ls {
 		lt[i] = l.text()
 	}
-	return rets, strings.Join(lt, "+"), in.memText(), changedAfter, panicked
+	return rets, strings.Join(lt, "+"), in.memText(), in.rowMemText(names), changedAfter, panicked
 }
 
 func (in *c16wInput) clone() *c16wInput {
-	out := &c16wInput{hdrs: in.hdrs, batch: in.batch}
+	out := &c16wInput{cells: in.cells, calls: in.calls, nrows: in.nrows, layout: in.layout}
 	for _, a := range in.arrays {
 		out.arrays = append(out.arrays, append([]parquet.Value(nil), a...))
 	}
-	for _, h := range in.hdrs {
-		var ai, off, l, c int
-		fmt.Sscanf(h, "%d:%d:%d:%d", &ai, &off, &l, &c)
-		out.rows = append(out.rows, parquet.Row(out.arrays[ai-1][off:off+l:off+c]))
+	for _, cs := range in.cells {
+		arr := make([]parquet.Row, len(cs))
+		for j, h := range cs {
+			var ai, off, l, c int
+			fmt.Sscanf(h, "%d:%d:%d:%d", &ai, &off, &l, &c)
+			if ai > 0 {
+				arr[j] = parquet.Row(out.arrays[ai-1][off : off+l : off+c])
+			}
+		}
+		out.rowArrs = append(out.rowArrs, arr)
 	}
 	return out
+}
+
+// the multiset of headers of every caller []Row array (to tell a permutation from an overwrite)
+func c16wSortedCells(rowMem string) string {
+	arrs := strings.Split(rowMem, "|")
+	for i, a := range arrs {
+		cs := strings.Split(a, ";")
+		sort.Strings(cs)
+		arrs[i] = strings.Join(cs, ";")
+	}
+	return strings.Join(arrs, "|")
 }
 
 var c16wKindName = map[byte]string{'F': "FilterRowWriter", 'T': "TransformRowWriter", 'D': "DedupeRowWriter", 'M': "MultiRowWriter", 'R': "RowBuffer", 'S': "RowWriterFunc"}
@@ -390,6 +549,7 @@ func c16WriteTrees(ctx *core.Ctx) {
 		rets  string
 		lv    string
 		mem   string
+		rmem  string
 		flat  bool
 		shape string
 	}
@@ -409,19 +569,21 @@ func c16WriteTrees(ctx *core.Ctx) {
 			return
 		}
 		for i, p := range batch {
-			want := "ok " + p.rets + " " + p.lv + " " + p.mem
+			want := "ok " + p.rets + " " + p.lv + " " + p.mem + " " + p.rmem
 			if answers[i] == want {
 				continue
 			}
 			part := "format"
-			if f := strings.Fields(answers[i]); len(f) == 4 && f[0] == "ok" {
+			if f := strings.Fields(answers[i]); len(f) == 5 && f[0] == "ok" {
 				switch {
 				case f[1] != p.rets:
 					part = "returns"
 				case f[2] != p.lv:
 					part = "delivered-rows"
-				default:
+				case f[3] != p.mem:
 					part = "caller-memory"
+				default:
+					part = "caller-row-slices"
 				}
 			}
 			ctx.Fail("L2", "writeside-model-differs:"+part, "the real row-writer wrappers and the Lean mirror (PqModel.WriteOwn) disagree on "+part,
@@ -437,13 +599,9 @@ func c16WriteTrees(ctx *core.Ctx) {
 		var toks []string
 		tree.postfix(&toks)
 		shape := strings.Join(toks, ",")
-		hdrs := "-"
-		if len(in.hdrs) > 0 {
-			hdrs = strings.Join(in.hdrs, ";")
-		}
-		req := fmt.Sprintf("own.run %s %s %s %s", shape, in.memText(), hdrs, core.JoinInts(in.batch))
+		req := fmt.Sprintf("own.run %s %s %s %s", shape, in.memText(), in.rowArraysText(), in.callsText())
 		pristine := in.clone()
-		rets, lv, mem, changedAfter, panicked := in.run(tree, flat)
+		rets, lv, mem, rowMem, changedAfter, panicked := in.run(tree, flat)
 		kinds := map[byte]bool{}
 		tree.kinds(kinds)
 		wrappers := 0
@@ -453,11 +611,12 @@ func c16WriteTrees(ctx *core.Ctx) {
 				ctx.Hist("tree-wrapper", c16wKindName[kk])
 			}
 		}
-		ctx.Hist("tree-rows", c16Bucket(len(in.rows)))
-		ctx.Hist("tree-calls", c16Bucket(len(in.batch)))
+		ctx.Hist("tree-rows", c16Bucket(in.nrows))
+		ctx.Hist("tree-calls", c16Bucket(len(in.calls)))
+		ctx.Hist("tree-caller-layout", in.layout)
 		delivered := strings.ContainsAny(lv, "123456789")
-		c16Count(ctx, req, wrappers > 0 && delivered && (len(in.batch) >= 2 || len(in.rows) >= 43))
-		if tree.kind == 'F' && tree.kids[0].kind == 'S' && tree.kids[0].failAt < 1000 && !strings.Contains(rets, ":1") && strings.Count(lv, "|")+2 <= len(in.batch) {
+		c16Count(ctx, req, wrappers > 0 && delivered && (len(in.calls) >= 2 || in.nrows >= 43))
+		if tree.kind == 'F' && tree.kids[0].kind == 'S' && tree.kids[0].failAt < 1000 && !strings.Contains(rets, ":1") && strings.Count(lv, "|")+2 <= len(in.calls) {
 			// outside C16 (an error-propagation matter): the sink failed, the filter reported success
 			ctx.Observe("filter-row-writer-swallows-write-error", "FilterRowWriter.WriteRows returns a nil error although the underlying writer failed (filter.go: `_, err := f.writer.WriteRows(...)` shadows the named result before `break`); the Lean mirror reproduces it (theorem filter_swallows_sink_error)",
 				map[string]any{"request": req, "returns(n:err)": rets})
@@ -477,22 +636,30 @@ func c16WriteTrees(ctx *core.Ctx) {
 				if kk == 'M' {
 					single.kids = append(single.kids, &c16wNode{kind: 'S', id: 2, failAt: 1000})
 				}
-				if _, _, _, ch, _ := pristine.clone().run(single, false); ch >= 0 {
+				if _, _, _, _, ch, _ := pristine.clone().run(single, false); ch >= 0 {
 					culprit = c16wKindName[kk] + ".WriteRows"
 					break
 				}
 			}
 			effect := "values-overwritten"
-			if strings.Count(mem, "0") > strings.Count(pristine.memText(), "0") {
+			rowsBefore := pristine.rowArraysText()
+			mem, rowMem := in.chMem, in.chRowMem // as they were right after the first call that changed them
+			switch {
+			case mem == pristine.memText() && rowMem != rowsBefore && c16wSortedCells(rowMem) == c16wSortedCells(rowsBefore):
+				effect = "row-slice-permuted"
+			case mem == pristine.memText() && rowMem != rowsBefore:
+				effect = "row-slice-overwritten"
+			case strings.Count(mem, "0") > strings.Count(pristine.memText(), "0"):
 				effect = "values-zeroed"
 			}
 			ctx.Fail("L1", "caller-slice-modified-by-write:"+culprit+":"+effect,
 				fmt.Sprintf("parquet rows passed to WriteRows of a tree of row-writer wrappers were modified by the library (first seen after call %d)", changedAfter),
-				map[string]any{"shape_postfix": shape, "caller_arrays_before": pristine.memText(), "caller_arrays_after": mem, "rows(arr:off:len:cap)": hdrs, "batches": in.batch,
+				map[string]any{"shape_postfix": shape, "caller_value_arrays_before": pristine.memText(), "caller_value_arrays_after": mem,
+					"caller_row_slices_before(arr:off:len:cap per cell)": rowsBefore, "caller_row_slices_after": rowMem, "calls(rowarray:off:len:cap)": in.callsText(),
 					"functions": "pred k: (h+k)%3!=0; same k: ha/(2+k%2)==hb/(2+k%2); transform k: (h+k)%7 0 skip, 1 twice, 6&&k>=100 fail, else copy; h = first value of the row",
 					"replay": req})
 		}
-		batch = append(batch, pending{tree, pristine, req, rets, lv, mem, flat, shape})
+		batch = append(batch, pending{tree, pristine, req, rets, lv, mem, rowMem, flat, shape})
 		if len(batch) >= 1000 {
 			flush()
 		}
